@@ -314,7 +314,7 @@ Definition local_ok (th : thread) (s : state) : Prop :=
 
 Record SInv (ss : sstate) : Prop := mkSInv {
   S_cfg1 : late_lock ss = false;
-  S_cfg2 : forall t, is_timeout (t_spec (ths ss t)) = false;
+  S_cfg2 : forall t, is_variant (t_spec (ths ss t)) = false;
   S_pend : pending (sh ss) = [];
   S_sh : InvK (keep_of ss) (sh ss);
   S_wsec : forall t, wsec (ths ss t) = true -> lk_w ss = Some t;
@@ -325,10 +325,10 @@ Record SInv (ss : sstate) : Prop := mkSInv {
   S_local : forall t, lk_w ss = Some t -> local_ok (ths ss t) (sh ss);
   S_holder : forall h, lk_w ss = Some h -> wsec (ths ss h) = true }.
 
-Lemma sinv_init : forall specs, no_timeouts specs = true -> SInv (sinit specs false).
+Lemma sinv_init : forall specs, no_variants specs = true -> SInv (sinit specs false).
 Proof.
   intros specs Hnt. constructor; cbn; try easy.
-  - intros t. unfold mk_ths. cbn. unfold no_timeouts in Hnt. rewrite forallb_forall in Hnt.
+  - intros t. unfold mk_ths. cbn. unfold no_variants in Hnt. rewrite forallb_forall in Hnt.
     destruct (Nat.ltb_spec t (length specs)) as [H|H].
     + apply negb_true_iff. apply Hnt. now apply nth_In.
     + now rewrite nth_overflow.
@@ -376,7 +376,7 @@ Qed.
 
 Lemma sinv_upd_sh : forall ss t th' s',
   SInv ss ->
-  is_timeout (t_spec th') = false ->
+  is_variant (t_spec th') = false ->
   pending s' = [] ->
   InvK (keep_of (upd_sh ss t th' s')) s' ->
   (wsec th' = true -> lk_w ss = Some t) ->
@@ -649,7 +649,7 @@ Qed.
 
 Lemma sinv_holder_step : forall ss t th' s',
   SInv ss -> lk_w ss = Some t ->
-  is_timeout (t_spec th') = false ->
+  is_variant (t_spec th') = false ->
   pending s' = [] -> readers s' = readers (sh ss) ->
   InvK (keep_th th' s') s' ->
   rsec th' = false -> holds th' = false ->
@@ -948,10 +948,10 @@ Lemma sstep_inv : forall ss t ss', SInv ss -> sstep t ss = Some ss' -> SInv ss'.
 Proof.
   intros ss t ss' HS Hst.
   pose proof (S_cfg1 ss HS) as Hll. pose proof (S_cfg2 ss HS t) as Hnt.
-  destruct (t_spec (ths ss t)) as [|k|c|c|] eqn:Hsp; try discriminate Hnt.
+  destruct (t_spec (ths ss t)) as [|k|c|c| |k] eqn:Hsp; try discriminate Hnt.
   - unfold sstep in Hst. rewrite Hsp in Hst. discriminate.
   - (* reader *)
-    destruct (t_pc (ths ss t)) as [| | |n| | | | | | | | | | | |] eqn:Hpc;
+    destruct (t_pc (ths ss t)) as [| | |n| | | | | | | | | | | | |] eqn:Hpc;
       unfold sstep in Hst; rewrite Hsp, Hpc in Hst; try discriminate.
     + destruct (lk_w ss) eqn:Hw; [discriminate|]. destruct (shut (sh ss)) eqn:Hsh; [discriminate|].
       inversion Hst; subst ss'. eapply step_reader_rlock; eauto.
@@ -968,7 +968,7 @@ Proof.
     + destruct (lookup t (readers (sh ss))) as [i|] eqn:Hlk; [|discriminate].
       inversion Hst; subst ss'. eapply step_reader_unpin; eauto.
   - (* reload *)
-    destruct (t_pc (ths ss t)) as [| | |n| | | | | | | | | | | |] eqn:Hpc;
+    destruct (t_pc (ths ss t)) as [| | |n| | | | | | | | | | | | |] eqn:Hpc;
       try (unfold sstep in Hst; rewrite Hsp, Hpc in Hst; discriminate).
     + unfold sstep in Hst. rewrite Hsp, Hpc, Hll in Hst.
       destruct (shut (sh ss)) eqn:Hsh; [discriminate|].
@@ -998,7 +998,7 @@ Proof.
       * unfold wsec. cbn. now rewrite Hsp.
       * unfold keep_th. now rewrite Hsp, Hpc.
   - (* shutdown *)
-    destruct (t_pc (ths ss t)) as [| | |n| | | | | | | | | | | |] eqn:Hpc;
+    destruct (t_pc (ths ss t)) as [| | |n| | | | | | | | | | | | |] eqn:Hpc;
       unfold sstep in Hst; rewrite Hsp, Hpc in Hst; try discriminate.
     + destruct (shut (sh ss)) eqn:Hsh; [discriminate|].
       destruct (lock_free ss) eqn:Hlf; [|discriminate].
@@ -1017,12 +1017,12 @@ Proof.
 Qed.
 
 (* ------------------------------------------------------------------ what holds for every schedule *)
-Lemma reachable_sinv : forall specs sched, no_timeouts specs = true ->
+Lemma reachable_sinv : forall specs sched, no_variants specs = true ->
   SInv (srun sched (sinit specs false)).
 Proof. intros. apply srun_inv. now apply sinv_init. Qed.
 
 (* no call on a closed backend, no second Close - whatever the interleaving *)
-Lemma smallstep_safe : forall specs sched, no_timeouts specs = true ->
+Lemma smallstep_safe : forall specs sched, no_variants specs = true ->
   let ss := srun sched (sinit specs false) in
   no_use_after_close (log (sh ss)) /\ no_double_close (log (sh ss)).
 Proof.
@@ -1034,7 +1034,7 @@ Qed.
 (* whenever nobody holds reloadMu for writing, the shared state satisfies the invariant of
    the ATOMIC model (Proofs/Refcount.Inv), hence the served and the pinned backends are
    open and every other backend ever opened has been closed exactly once *)
-Lemma smallstep_lockfree_atomic : forall specs sched, no_timeouts specs = true ->
+Lemma smallstep_lockfree_atomic : forall specs sched, no_variants specs = true ->
   let ss := srun sched (sinit specs false) in
   lk_w ss = None -> Inv (sh ss) /\ handles_ok (snap (sh ss)).
 Proof.
@@ -1046,7 +1046,7 @@ Qed.
 
 Definition quiet (ss : sstate) : Prop := forall t, finished (ths ss t) = true.
 
-Lemma smallstep_quiet_unlocked : forall specs sched, no_timeouts specs = true ->
+Lemma smallstep_quiet_unlocked : forall specs sched, no_variants specs = true ->
   let ss := srun sched (sinit specs false) in quiet ss -> lk_w ss = None.
 Proof.
   intros specs sched Hnt ss Hq. pose proof (reachable_sinv specs sched Hnt) as HS. fold ss in HS.
@@ -1058,7 +1058,7 @@ Qed.
 (* no leak: when all threads have finished (or merely: the write lock is free) and no reader
    is held, every backend ever opened other than the served one - after shutdown that one
    too - has been closed exactly once *)
-Lemma smallstep_no_leak : forall specs sched, no_timeouts specs = true ->
+Lemma smallstep_no_leak : forall specs sched, no_variants specs = true ->
   let ss := srun sched (sinit specs false) in
   lk_w ss = None -> readers (sh ss) = [] ->
   forall b, openedb (log (sh ss)) b = true ->
@@ -1075,7 +1075,7 @@ Qed.
    other thread is between Lock and Unlock of Reload / Close, none is between RLock and
    RUnlock of AcquireReader, and the reader count is zero.  So between the sub-steps of a
    reload only use / release of readers that already hold a pin can happen. *)
-Lemma smallstep_mutex : forall specs sched, no_timeouts specs = true ->
+Lemma smallstep_mutex : forall specs sched, no_variants specs = true ->
   let ss := srun sched (sinit specs false) in
   forall t, lk_w ss = Some t ->
     wsec (ths ss t) = true /\ (forall t', t' <> t -> wsec (ths ss t') = false) /\
@@ -1115,7 +1115,7 @@ Qed.
    in between f.Destroy() (which closed backend 0) and the swap: NewContext, ForEach and
    FreeContext on a closed backend, and a second Close when it releases. *)
 Lemma smallstep_late_lock_refuted :
-  exists specs sched, no_timeouts specs = true /\
+  exists specs sched, no_variants specs = true /\
     let ss := srun sched (sinit specs true) in
     ~ no_use_after_close (log (sh ss)) /\ ~ no_double_close (log (sh ss)).
 Proof.
@@ -1133,4 +1133,20 @@ Lemma smallstep_f28_refuted :
 Proof.
   exists [TReloadTimeout CErr; TReload (CNew true)], [0; 0; 0; 1; 1; 1; 1; 1; 1; 1; 0]%nat.
   intro H. apply no_use_after_closeb_iff in H. vm_compute in H. discriminate.
+Qed.
+
+(* variant c06h: DataReader.Close decrements refCount atomically OUTSIDE DB.l and only then
+   takes the lock to test destroyable && refCount = 0.  Thread 0 (the last reader of backend
+   0) decrements to 0; thread 1 reloads to a new backend: f.Destroy() sees refCount = 0 and
+   closes backend 0; then thread 0 takes the lock, finds the wrapper destroyable with
+   refCount 0 and closes backend 0 a second time.  The release must be ONE critical section
+   of DB.l (which is what every sub-step of TReader is). *)
+Lemma smallstep_split_release_refuted :
+  exists specs sched,
+    let ss := srun sched (sinit specs false) in
+    quiet ss /\ ~ no_double_close (log (sh ss)).
+Proof.
+  exists [TReaderSplit 0; TReload (CNew true)], [0; 0; 0; 0; 0; 1; 1; 1; 1; 1; 1; 1; 0]%nat. split.
+  - intros t. destruct t as [|[|t]]; vm_compute; try reflexivity. destruct t as [|[|t]]; reflexivity.
+  - intro H. apply no_double_closeb_iff in H. vm_compute in H. discriminate.
 Qed.
